@@ -113,6 +113,26 @@ pub fn c01(out: &mut Vec<String>, rng: &mut Rng, tier: &str) {
             out.push(arith_case::<f32>("C01", conf, &ys));
         }
     }
+    // zero spread: constant samples and duplicates whose computed variance is exactly zero; every
+    // kind must keep its shape ([mean, +inf), (-inf, mean], [mean, mean])
+    for c in [4.0f64, -2.5, 0.1, 1.0 / 3.0, 1e-9, 123456.789] {
+        for n in [2usize, 3, 5, 40] {
+            for k in 0..3 {
+                let conf = conf_of(k, *rng.pick(&LEVELS));
+                out.push(arith_case::<f64>("C01", conf, &vec![c; n]));
+                out.push(arith_case::<f32>("C01", conf, &vec![c as f32; n]));
+            }
+        }
+    }
+    // tiny spreads at ordinary and at small magnitudes (nanosecond-scale data)
+    for _ in 0..(if tier == "thorough" { 200 } else { 30 }) {
+        let n = rng.range(2, 60) as usize;
+        let scale = (2.0f64).powi(rng.range(-40, -10) as i32);
+        let xs: Vec<f64> = (0..n).map(|_| (1.0 + rng.unit()) * scale).collect();
+        out.push(arith_case::<f64>("C01", rand_conf(rng), &xs));
+        let ys: Vec<f32> = (0..n).map(|_| ((1.0 + rng.unit()) * (2.0f64).powi(rng.range(-20, -8) as i32)) as f32).collect();
+        out.push(arith_case::<f32>("C01", rand_conf(rng), &ys));
+    }
     // all levels of the grid on one small sample, three kinds
     let xs = sample_f64(rng, 12, 3, 4.0);
     for l in LEVELS {
@@ -250,6 +270,19 @@ pub fn c05(out: &mut Vec<String>, rng: &mut Rng, tier: &str) {
                 out.push(harm_case::<f32>("C05", conf, &xs));
             }
         }
+    }
+    // very large and very small magnitudes: the reciprocals (resp. logarithms) leave the ordinary range
+    for i in 0..(if tier == "thorough" { 200 } else { 40 }) {
+        let n = rng.range(2, 40) as usize;
+        let conf = rand_conf(rng);
+        let e = if i % 2 == 0 { rng.range(40, 60) } else { rng.range(-60, -40) };
+        let xs: Vec<f64> = (0..n).map(|_| (0.5 + rng.unit()) * (2.0f64).powi(e as i32)).collect();
+        out.push(geo_case::<f64>("C05", conf, &xs));
+        out.push(harm_case::<f64>("C05", conf, &xs));
+        let e32 = if i % 2 == 0 { rng.range(22, 30) } else { rng.range(-30, -22) };
+        let ys: Vec<f32> = (0..n).map(|_| ((0.5 + rng.unit()) * (2.0f64).powi(e32 as i32)) as f32).collect();
+        out.push(geo_case::<f32>("C05", conf, &ys));
+        out.push(harm_case::<f32>("C05", conf, &ys));
     }
     // harmonic <= geometric <= arithmetic on the reported sample means
     for _ in 0..(if tier == "thorough" { 400 } else { 60 }) {
